@@ -112,7 +112,9 @@ pub trait TranslateOps<T> : TooDeeOpsMut<T> {
                     }
                 }
                 
-                next_row += row_adj_abs;
+                // advance by `row_adj_abs` modulo `num_rows`; written without `next_row + row_adj_abs`
+                // because that sum can exceed `usize::MAX` for huge arrays of zero-sized elements
+                next_row = if next_row >= row_mid { next_row - row_mid } else { next_row + row_adj_abs };
             }
             
             // TODO: We now know that we'll loop a further N = (num_rows / swap_count - 1) times.
